@@ -114,8 +114,20 @@ class DeckRun:
                     continue
                 if par.getparent() is None or par.getparent().tag not in ("{%s}spTree" % NS_P, "{%s}grpSp" % NS_P):
                     continue        # e.g. the p:pic inside p:oleObj (id="0" as PowerPoint writes it) is not a shape of the tree
+                relmap = {str(r.rId): (str(r._target) if r.is_external else "part:" + str(r.target_part.partname)) for r in sp.rels.values()}
+
+                def link_tok(hl):
+                    if hl is None:
+                        return "none"
+                    if "hlinksldjump" in (hl.get("action") or ""):
+                        return "jump"
+                    tgt = relmap.get(hl.get("{%s}id" % NS_R), "<<dangling>>")
+                    return {URLS[0]: "u0", URLS[1]: "u1", URLS[2]: "u2"}.get(tgt, "other:" + tgt[:40])
+                first_run_rpr = par.find("{%s}txBody/{%s}p/{%s}r/{%s}rPr" % (NS_P, NS_A, NS_A, NS_A))
                 sh.append({"id": v, "pos": bool(re.match(r"^[1-9]\d*$", v or "")) and int(v) <= 4294967295,
-                           "kind": etree.QName(par).localname, "name": el.get("name", "")})
+                           "kind": etree.QName(par).localname, "name": el.get("name", ""),
+                           "lk": link_tok(el.find("{%s}hlinkClick" % NS_A)),
+                           "rl": link_tok(first_run_rpr.find("{%s}hlinkClick" % NS_A) if first_run_rpr is not None else None)})
             rels = []
             for rel in sp.rels.values():
                 ext = bool(rel.is_external)
